@@ -1,4 +1,5 @@
 import Replicon.Proofs.Events
+import Replicon.Proofs.JointEvents
 /-
 C05 — Remote events: exactly once, in order, to the intended recipients only.
 
@@ -8,7 +9,11 @@ client: `receive` (`ClientEventQueue` + `receive_typed`).  Towards the server: `
 (`Events<E>` + `ClientEventReader`) and `receiveFrom` (`ClientEvent::receive_typed`: the sender
 identity is the one the transport attached to the message).
 
-The theorems are about one side each; the transport between them (ordered reliable channels
+`C05_history_*` are statements over ALL histories of the joint server model
+(`Model/Joint.lean`: any interleaving of world operations, connects, authorizations,
+disconnects, stops, starts, emissions and frames with or without a tick, any number of
+clients), proved by induction over the operation list.  The other theorems are about one side
+each; the transport between them (ordered reliable channels
 deliver every message once and in order, unreliable ones at most once) is an assumption about
 the backend, checked for the example backend in C17.  The composition over whole sessions is
 checked by the C05 oracles on the implementation (exactly once after quiescence, recipients,
@@ -108,6 +113,46 @@ theorem C05_client_event_once (steps : List CStep) :
 
 /-- the server-side logic sees the identity the transport attached, unchanged -/
 theorem C05_sender_identity (msgs : List (Nat × Nat)) : (receiveFrom msgs).map (·.1) = msgs.map (·.1) := rfl
+
+/-! ### all histories of the server -/
+
+/-- Over every history from the initial state, for every client and channel: the dependent
+events handed to the transport are a sub-sequence of the events emitted on that channel, in
+emission order.  So nothing is sent twice — in the same frame or in a later one — and nothing
+is sent that was not emitted. -/
+theorem C05_history_order (c ch : Nat) (ops : List Joint.Op) :
+    List.Sublist (Joint.sentIds c ch (Joint.run {} ops).2) (Joint.emittedIds ch ops) :=
+  Joint.sent_sub_init c ch ops
+
+/-- at most once: with distinct payloads, no payload goes to the same client twice -/
+theorem C05_history_at_most_once (c ch : Nat) (ops : List Joint.Op) (h : (Joint.emittedIds ch ops).Nodup) :
+    (Joint.sentIds c ch (Joint.run {} ops).2).Nodup :=
+  (C05_history_order c ch ops).nodup h
+
+/-- A client never receives an event sent before it connected: from any reachable state, after
+`connect c`, whatever the rest of the history does, client `c` is handed only events emitted
+since the last frame (they are sent in the frame that follows) or later — nothing that was
+already buffered. -/
+theorem C05_history_late_joiner (c ch : Nat) (a : Bool) (st : Joint.St) (inv : Joint.Inv st) (ops : List Joint.Op) :
+    List.Sublist (Joint.sentIds c ch (Joint.run (Joint.step st (.connect c a)).1 ops).2)
+      (Joint.depIds ch st.pending ++ Joint.emittedIds ch ops) :=
+  Joint.sent_sub_connect c ch a ops st inv
+
+/-- … and every state a history reaches satisfies the invariant that theorem needs -/
+theorem C05_history_reachable (ops : List Joint.Op) : Joint.Inv (Joint.run {} ops).1 :=
+  (Joint.inv_run ops {} Joint.inv_init).1
+
+/-- Non-vacuity: two events buffered over two frames without a tick, a client connecting in
+between two emissions, a tick: the early client gets all three in order, the late one only what
+was emitted after it connected; a later tick sends nothing again. -/
+example :
+    let e (i : Nat) : Joint.Op := .emit { ev := { id := i, chan := 2, mode := .broadcast }, independent := false }
+    let ops : List Joint.Op :=
+      [.start, .connect 0 true, e 10, .frame true 10 (fun _ => []), e 11, .frame false 10 (fun _ => []),
+       .connect 1 true, e 12, .frame false 10 (fun _ => []), .frame true 10 (fun _ => []), .frame true 10 (fun _ => [])]
+    (Joint.sentIds 0 2 (Joint.run {} ops).2, Joint.sentIds 1 2 (Joint.run {} ops).2, Joint.emittedIds 2 ops) =
+      ([10, 11, 12], [12], [10, 11, 12]) := by
+  decide
 
 /-- Non-vacuity: three clients, one joined late, one unauthorized. -/
 example :
